@@ -50,7 +50,17 @@ def check_zeroth(rep, algopy, rng, tier):
             try:
                 outs = op.run(algopy, case, inputs)
             except Exception as e:
-                rep.notes.append('%s raised %r (decided by the owning property)' % (nm, e))
+                # does NumPy accept the zeroth coefficients?  then the overload must accept the polynomial as well
+                accepted = False
+                if not nm.startswith(('elem:', 'arith:')) and hasattr(op, 'ref0') and op.ref0 is not None:
+                    try:
+                        op.ref0(case, [x[0, 0] for x in inputs]); accepted = True
+                    except Exception:
+                        accepted = False
+                if accepted:
+                    rep.violation('zeroth:%s:exception' % nm, '%s raises %r on arguments NumPy accepts' % (nm, e), dict(kind='zeroth', case=case, exc=repr(e)))
+                else:
+                    rep.notes.append('%s raised %r (decided by the owning property)' % (nm, e))
                 continue
             for p in range(P):
                 try:
@@ -76,6 +86,51 @@ def check_zeroth(rep, algopy, rng, tier):
                         rep.violation('zeroth:' + nm, '%s: zeroth coefficient in direction %d differs from the NumPy/SciPy result (shape %s vs %s)'
                                       % (nm, p, o[0, p].shape, numpy.shape(r)), dict(kind='zeroth', case=case, direction=p, output=i))
                         break
+
+
+def check_reductions(rep, algopy, rng, tier):
+    """sum / prod / dot-like reductions of a UTPM for every rank NumPy accepts, rank 0 included: zeroth coefficient and shape"""
+    UTPM = algopy.UTPM
+    n = 6 if tier == 'quick' else 60
+    calls = [('sum', lambda x: algopy.sum(x), lambda a: numpy.sum(a)), ('x.sum()', lambda x: x.sum(), lambda a: a.sum()),
+             ('prod', lambda x: algopy.prod(x), lambda a: numpy.prod(a)), ('x.prod()', lambda x: x.prod(), lambda a: a.prod())]
+    for shp in [(), (1,), (4,), (2, 3), (3, 1), (2, 1, 2), (2, 2, 2)]:
+        for _ in range(n):
+            D = rng.randint(1, 4); P = rng.randint(1, 3)
+            nel = int(numpy.prod(shp, dtype=int))
+            xd = numpy.array([rng.randint(-6, 6) / 4 for _ in range(D * P * nel)]).reshape((D, P) + shp)
+            for name, f, g in calls:
+                rep.count('reduction', name); rep.count('reduction:rank', len(shp))
+                rep.case(('reduction', name, xd.tobytes().hex(), D, P, shp), P >= 2 or D >= 2, sample=dict(check='reduction', op=name, D=D, P=P, shape=list(shp)))
+                try:
+                    y = f(UTPM(xd.copy()))
+                    yd = numpy.asarray(y.data)
+                except Exception as e:
+                    rep.violation('reduction:%s:exception' % name.replace('x.', '').replace('()', ''), '%s of a UTPM with coefficient shape %s raises %r although NumPy accepts the shape' % (name, shp, e),
+                                  dict(kind='reduction', op=name, shape=list(shp), x=xd.tolist(), exc=repr(e)))
+                    continue
+                want = numpy.array([g(xd[0, p]) for p in range(P)])
+                if yd.shape != (D, P) or not numpy.allclose(yd[0], want, rtol=1e-13, atol=1e-13):
+                    rep.violation('reduction:%s' % name.replace('x.', '').replace('()', ''), '%s of coefficient shape %s: zeroth coefficient %r, NumPy gives %r (result shape %s)' % (name, shp, yd[0].tolist() if yd.ndim >= 1 else None, want.tolist(), yd.shape),
+                                  dict(kind='reduction', op=name, shape=list(shp), x=xd.tolist()))
+                    continue
+                # higher coefficients of prod: the truncated product of the flattened elements (exact dyadic inputs, small sizes)
+                if 'prod' in name:
+                    acc = numpy.zeros((D, P)); acc[0] = 1
+                    flat = xd.reshape((D, P, -1))
+                    for i in range(flat.shape[2]):
+                        new = numpy.zeros((D, P))
+                        for d in range(D):
+                            for c in range(d + 1):
+                                new[d] += acc[c] * flat[d - c, :, i]
+                        acc = new
+                    if not numpy.allclose(yd, acc, rtol=1e-12, atol=1e-12):
+                        rep.violation('reduction:prod:coefficients', '%s of coefficient shape %s is not the truncated product of the elements' % (name, shp),
+                                      dict(kind='reduction', op=name, shape=list(shp), x=xd.tolist()))
+                else:
+                    if not numpy.allclose(yd, xd.reshape((D, P, -1)).sum(axis=2), rtol=1e-13, atol=1e-13):
+                        rep.violation('reduction:sum:coefficients', '%s of coefficient shape %s is not the coefficient-wise sum' % (name, shp),
+                                      dict(kind='reduction', op=name, shape=list(shp), x=xd.tolist()))
 
 
 def check_shape_attrs(rep, algopy, rng, tier):
@@ -228,6 +283,7 @@ def main(tier, seed):
     rep.theorems()
     rng = lib.rng_for(seed, PID)
     check_zeroth(rep, algopy, rng, tier)
+    check_reductions(rep, algopy, rng, tier)
     check_shape_attrs(rep, algopy, rng, tier)
     check_comparisons(rep, algopy, rng, tier)
     check_plain(rep, algopy, rng, tier)
